@@ -48,8 +48,18 @@ for d in sorted(os.listdir(SEEDED)):
     notes = open(os.path.join(path, "notes.md")).read() if os.path.exists(os.path.join(path, "notes.md")) else ""
     meta_path = os.path.join(path, "meta.json")
     meta = json.load(open(meta_path)) if os.path.exists(meta_path) else {}
+    def section(rx):
+        m = re.search(r"^#+[^\n]*(" + rx + r")[^\n]*\n(.*?)(?=^#+ |\Z)", notes, re.S | re.M | re.I)
+        return re.sub(r"\s+", " ", m.group(2)).strip()[:900] if m else ""
+    title = next((l.lstrip("# ").strip() for l in notes.splitlines() if l.startswith("# ")), "")
+    needs = section("manifest|trigger|needs|needed|condition|when it") or section("failing input|fail")
+    breaks = section("clause|breaks|broken")
     meta.update({
         "id": d, "property": pid,
+        "what_it_changes": title,
+        "clause_broken": breaks,
+        "needs_to_manifest": needs,
+        "ran": "tools/confirm_seed.sh (worktree of /repo HEAD: demo passes; patch applied: builds, full suite passes, demo fails), then ./check <property> --tier quick with VERIF_REPO=<scratch worktree with the patch> (tools/run_seeded.py)",
         "source": "fresh sub-agent given only the property text and its own scratch worktree",
         "confirmed": "tools/confirm_seed.sh: applies, builds, existing suite passes, demonstration fails with it and passes without (confirmation.log)",
         "applies_to_head": ok,
